@@ -181,7 +181,7 @@ def judge_single(call, chk, probe=None):
     off = opts['offset']
     if off:
         P('offset-used')
-        for nm in endo:
+        for nm in call.get('endo_offset', endo):  # (the instance's own list, where the caller has edited it)
             start[nm][tn] = snap[nm][tn + off]
     init_check = [float(start[nm][tn]) for nm in check]
 
@@ -192,7 +192,7 @@ def judge_single(call, chk, probe=None):
         chk('preexisting/no-seam-call', len(log) == 0, {'log': [r['hook'] for r in log]})
         # nothing changes, except (at most) the documented offset copy that precedes the test
         cells = diff_cells(snap, post)
-        allowed = {(nm, tn) for nm in endo} if off else set()
+        allowed = {(nm, tn) for nm in call.get('endo_offset', endo)} if off else set()
         bad = [c for c in cells if c not in allowed]
         chk('preexisting/nothing-changes', not bad, {'changed': bad[:8]})
         if off and cells:
@@ -223,6 +223,8 @@ def judge_single(call, chk, probe=None):
 
     def others_untouched():
         allowed = {(nm, tn) for nm in endo} | {('status', tn), ('iterations', tn)}
+        if off:
+            allowed |= {(nm, tn) for nm in call.get('endo_offset', [])}
         for r in log:
             if r.get('act') == 'setx':
                 allowed |= {(nm, tn) for nm in call.get('exo', [])}
